@@ -46,6 +46,40 @@ def is_sum(t, c, x):
     return isinstance(t, tuple) and t[0] == "op" and t[1] == "add" and {t[3], t[4]} == {("c", c), x} and t[3] != t[4]
 
 
+def eval_for_byte(o, term, b, loader_ext):
+    """value of a callback-argument term when the initial byte is b: the dispatch load and any 1-byte loader applied to
+    source+0 both denote b.  None if the term depends on anything else."""
+    import termeval
+    env = {}
+    for r in o["reads"]:
+        if r["off"] == 0 and r["width"] == 1:
+            ev = r["ev"]
+            if ev.kind == "load":
+                env[ev.res] = b
+            elif ev.kind == "call" and loader_ext(ev.callee) == 1:
+                env[ev.res] = b
+
+    def sub(t):
+        if t in env:
+            return ("c", env[t])
+        if isinstance(t, tuple) and t and t[0] == "cast" and t[1] == "sext":
+            inner = sub(t[3])
+            if inner[0] == "c":
+                bits = 32
+                v = inner[1]
+                if v >> (bits - 1):
+                    v = (v - (1 << bits)) & ((1 << 64) - 1)
+                return ("c", v)
+            return t[:3] + (inner,)
+        if isinstance(t, tuple):
+            return tuple(sub(x) if isinstance(x, tuple) else x for x in t)
+        return t
+    try:
+        return termeval.evaluate(sub(term), {}, {})
+    except Exception:
+        return None
+
+
 def check_byte(prog, b, ref, o, enumv, loader_ext):
     """compare one path outcome for initial byte b with the reference; returns list of (rule, ok, detail)"""
     res = []
@@ -113,6 +147,9 @@ def check_byte(prog, b, ref, o, enumv, loader_ext):
             res.append(("action", ok, "" if ok else "callback %s takes no value but receives %d" % (ref["field"], len(argdesc))))
         elif "const" in ref:
             ok = len(argdesc) == 1 and argdesc[0] == ("const", ref["const"])
+            if not ok and len(cb["args"]) == 2:
+                v = eval_for_byte(o, cb["args"][1], b, loader_ext)
+                ok = v is not None and (v != 0) == bool(ref["const"])
             res.append(("action", ok, "" if ok else "boolean callback receives %s, expected constant %d" % (argdesc, ref["const"])))
         elif ref.get("imm"):
             d = argdesc[0] if argdesc else None
@@ -121,6 +158,11 @@ def check_byte(prog, b, ref, o, enumv, loader_ext):
             if ok:
                 ev_off = _loader_offset(o, d[2])
                 ok = loader_ext(d[1]) == 1 and ev_off == 0
+            if not ok:
+                # any other spelling (mask, subtraction from the dispatch byte, ...): decide on the value it yields for this byte
+                argterm = cb["args"][2] if payload else (cb["args"][1] if len(cb["args"]) > 1 else None)
+                v = eval_for_byte(o, argterm, b, loader_ext) if argterm is not None else None
+                ok = v is not None and v == (b & 31)
             res.append(("action", bool(ok), "" if ok else "immediate value for 0x%02X must be (initial byte - 0x%02X); got %s"
                         % (b, bias, _fmt_desc(d))))
         else:
@@ -182,6 +224,9 @@ def check_byte(prog, b, ref, o, enumv, loader_ext):
             d = tables.describe_arg(amount)
             if ref.get("imm"):
                 okd = (d[0] == "loader-bias" and d[3] == ref["bias"]) and loader_ext(d[1]) == 1 and _loader_offset(o, d[2]) == 0
+                if not okd:
+                    v = eval_for_byte(o, amount, b, loader_ext)
+                    okd = v is not None and v == (b & 31)
                 bound = 23
             else:
                 okd = d[0] == "loader" and loader_ext(d[1]) == N and _loader_offset(o, d[2]) == 1
@@ -218,7 +263,7 @@ def check_byte(prog, b, ref, o, enumv, loader_ext):
         prov = ("arg", o["size_i"])
         want = [("icmp", "ugt", fc["amount"], ("op", "sub", "i64", prov, ("c", before)) if before else prov)]
         facts = o["path"].st.truth
-        okc = any(facts.get(w) is True for w in want)
+        okc = o["path"].st.rel_gt(fc["amount"], want[0][3])
         if not okc and P.is_const(fc["amount"]):
             # constant amount: recorded as an interval on (provided - before)
             t = want[0][3]
